@@ -30,6 +30,10 @@ CHECKS = {
   "reference-model monitor: literal statement over an independent Redis key-spec table, exhaustive to a key-count bound",
   "Every command of the tool table x every valid arity up to 4 (quick) / 6 (thorough) keys x all 2^n pass/fail patterns x whitelist/blacklist is rewritten by the real filter and compared argv-for-argv with the literal statement evaluated over an independently typed key-spec table; plus checkpoint keys, commands outside the table, no-filter identity. Exhaustive to the bound.",
   "Trusted: the reference key-spec table (Redis first/last/step) and that pass/fail is controlled by key prefix only.", "DESIGN.md §5/C13"),
+ "C17": ("exploration",
+  "generator-by-construction oracle over the real decode command: output file parsed and compared as a multiset with the generator's element list, for parallel 1..64, in child processes under the Go race detector",
+  "600/12000 generated RDB files (classic types in all 16 physical encodings, binary and non-UTF-8 keys/values, any finite score incl. -0 and subnormals, lua scripts and other metadata between keys, several databases, expiries) are decoded by run.CmdDecode.Main with parallel in {1,2,4,16,64} (floor per degree); every output line is parsed and the multiset of (db, expireat, key, type, index|field|member, value, score) must equal the generator's list, with one aux line per script. Files with +-Inf/NaN scores and one hash above 16 MiB run on a fixed schedule (both are recorded known findings: the process aborts).",
+  "Trusted: lib/rdbgen. Script lines are counted, not compared (the tool prints them unencoded).", "DESIGN.md §5/C17"),
  "C18": ("exploration",
   "runtime monitor: scripted programs vs exact offset model with goroutine-state inspection (up to 3 simultaneous waiters); concurrent histories recorded at the API boundary and checked for linearizability with porcupine; interval oracle for ring-crossing writes; Go race detector",
   "Seeded programs of Write/ReadAt/WaitAt/DataRange/NewReader/SeekTo/IsValid/Reader.Read/Close run against the model {wpos, capacity, closed} with position-coded content, offsets aimed at both validity edges (wpos-cap-1..+1, wpos..+1), totals up to dozens of laps; waiting and wake-up of every parked reader are read from goroutine states. 150/1500 concurrent histories (1 writer, 2-4 readers) are checked with porcupine v1.3.0 (60 s timeout => inconclusive); ring-crossing writes under an interval oracle; any -race report in backlog code is a violation.",
